@@ -27,7 +27,8 @@ Alphabet
              each handler: return | raise RuntimeError | raise HTTPError; exhaustive (no deviation bound).
 
 Bound      quick: N<=3 with <=2 deviations without hooks, N<=1 with all hook stackings (<=2 deviations);
-           thorough: N<=3 with <=3 deviations (sink/r405 <=2), N<=2 with all hook stackings <=2 deviations.
+           thorough: N<=3 with <=3 deviations, N=4 with <=2 deviations (routed/unrouted),
+           N<=2 with all hook stackings <=2 deviations.
 
 Oracle     stack_model(): an interpreter of docs/api/middleware.rst and the independent_middleware
            paragraph of the App docstring.  Compared exactly: the complete call trace, including
@@ -468,7 +469,16 @@ def compare(cfg, b, ch_choices, tr, res, rep):
 
 
 def explore_cfg(cfg, bound, rep):
-    b = build(cfg)
+    try:
+        b = build(cfg)
+    except Exception as e:  # every generated configuration is a documented, valid one
+        rep.violation({'kind': 'app-construction-failed', 'stack': cfg['stack'], 'flavour': cfg['flavour'],
+                       'exc': type(e).__name__},
+                      {'cfg': cfg, 'choices': []},
+                      'stack=%s shape=%r flavour=%s reg=%s hooks=%r: building the app raised %s: %s'
+                      % (cfg['stack'], cfg['shape'], cfg['flavour'], cfg['reg'], cfg['hooks'], type(e).__name__, e))
+        rep.c['configs'] += 1
+        return 0
     key = cfg_key(cfg)
     stack = cfg['stack']
 
@@ -529,6 +539,16 @@ def _life_args(scope, event):
             event.get('type') if isinstance(event, dict) else repr(event))
 
 
+def _life_code(phase, i):
+    return 520 + 2 * i + (1 if phase == 'shutdown' else 0)
+
+
+def _life_marker(act, phase, i):
+    if act == 'runtime':
+        return 'RuntimeError: boom-%s%d' % (phase, i)
+    return '<HTTPError: %d>' % _life_code(phase, i)
+
+
 def _life_enter(ev, label):
     _cur.trace.append(ev)
     a = LIFE_ACTS[_cur.ch.choose(len(LIFE_ACTS), label)]
@@ -536,7 +556,7 @@ def _life_enter(ev, label):
         return
     if a == 'runtime':
         raise RuntimeError('boom-' + label)
-    raise falcon.HTTPError(503, title='boom-' + label)
+    raise falcon.HTTPError(_life_code(ev[0], ev[1]))
 
 
 def lifespan_call(app, scope, script):
@@ -589,20 +609,21 @@ def lifespan_model(shape, choices):
     def site(ev, label):
         trace.append(ev)
         c = next(it, 0)
-        return LIFE_ACTS[c if c < len(LIFE_ACTS) else 0], label
+        a = LIFE_ACTS[c if c < len(LIFE_ACTS) else 0]
+        return a, _life_marker(a, ev[0], ev[1])
 
     for i, ms in enumerate(shape):
         if 'startup' in ms:
             a, label = site(('startup', i, ('scope-ok', 'lifespan.startup')), 'startup%d' % i)
             if a != 'return':
-                events.append(('lifespan.startup.failed', 'boom-' + label))
+                events.append(('lifespan.startup.failed', label))
                 return trace, events
     events.append(('lifespan.startup.complete', None))
     for i in reversed(range(len(shape))):
         if 'shutdown' in shape[i]:
             a, label = site(('shutdown', i, ('scope-ok', 'lifespan.shutdown')), 'shutdown%d' % i)
             if a != 'return':
-                events.append(('lifespan.shutdown.failed', 'boom-' + label))
+                events.append(('lifespan.shutdown.failed', label))
                 return trace, events
     events.append(('lifespan.shutdown.complete', None))
     return trace, events
@@ -722,12 +743,17 @@ def gen_configs(tier, seed):
                     for reg in regs:
                         for indep in (True, False):
                             for target in ('routed', 'unrouted', 'sink', 'r405'):
-                                if thorough:
-                                    bound = 3 if target in ('routed', 'unrouted') or n <= 2 else 2
-                                else:
-                                    bound = 2
+                                bound = 3 if thorough else 2
                                 out.append(({'stack': stack, 'shape': shape, 'indep': indep, 'target': target,
                                              'reg': reg, 'flavour': flavour, 'hooks': no_hooks, 'seed': seed}, bound))
+    if thorough:
+        # N=4, <=2 deviations, routed/unrouted
+        for shape in itertools.product(_SUBSETS, repeat=4):
+            for stack in ('wsgi', 'asgi'):
+                for indep in (True, False):
+                    for target in ('routed', 'unrouted'):
+                        out.append(({'stack': stack, 'shape': shape, 'indep': indep, 'target': target, 'reg': 'ctor',
+                                     'flavour': 'plain' if stack == 'wsgi' else 'alt', 'hooks': no_hooks, 'seed': seed}, 2))
     max_n_hooks = 2 if thorough else 1
     for n in range(0, max_n_hooks + 1):
         for shape in itertools.product(_SUBSETS, repeat=n):
@@ -758,7 +784,8 @@ def run_batch(batch, rep):
         return
     for cfg, bound in items:
         n = explore_cfg(cfg, bound, rep)
-        if cfg['shape'] and len(cfg['shape']) == 2 and rep.c['configs'] % 50 == 0:
+        rep.c['executions_with_hooks' if any(cfg['hooks']) else 'executions_without_hooks'] += n
+        if len(rep.samples) < 2 and len(cfg['shape']) >= 2:
             rep.sample({'cfg': cfg, 'bound': bound, 'executions': n})
 
 
@@ -767,8 +794,9 @@ def check(rep):
     life = gen_life_configs(rep.tier)
     thorough = rep.tier == 'thorough'
     rep.bounds = {
-        'components': '0..3, each a non-empty subset of {process_request, process_resource, process_response}',
-        'deviations': ('<=3 (sink/r405 targets at N=3: <=2)' if thorough else '<=2') + '; a raising handler counts as one more',
+        'components': ('0..3' + (' (and 4 with <=2 deviations, routed/unrouted)' if thorough else '')
+                       + ', each a non-empty subset of {process_request, process_resource, process_response}'),
+        'deviations': ('<=3' if thorough else '<=2') + '; a raising handler counts as one more',
         'stacks': ['wsgi', 'asgi (plain and *_async twins with sync decoys)'],
         'independent_middleware': [True, False],
         'targets': ['routed', 'unrouted', 'sink', 'r405'],
@@ -783,15 +811,11 @@ def check(rep):
                        'HTTPStatus raised by middleware/responders is not in the action alphabet',
                        'the unrouted default responder and the 405 responder count as raising (HTTPNotFound / HTTPMethodNotAllowed)',
                        'a resource object is truthy']
-    nshards = 192
-    shards = [[] for _ in range(nshards)]
-    for i, item in enumerate(cfgs):
-        shards[i % nshards].append(item)
-    batches = [('http', s) for s in shards if s]
-    lb = 8
-    batches += [('life', life[i::lb]) for i in range(lb) if life[i::lb]]
-    r = rep.seed % len(batches)
-    batches = batches[r:] + batches[:r] if rep.seed else batches
+    # contiguous blocks (simplest configurations first, so the first example kept per violation
+    # kind is the simplest); the pool hands blocks out dynamically, which balances the load
+    bs = max(1, len(cfgs) // 320)
+    batches = [('life', life[i:i + 100]) for i in range(0, len(life), 100)]
+    batches += [('http', cfgs[i:i + bs]) for i in range(0, len(cfgs), bs)]
     par.run_shards(run_batch, batches, rep)
 
 
@@ -813,7 +837,10 @@ def replay(rec):
         out = {'real_trace': tr, 'expected_events': exp_ev}
     else:
         cfg['hooks'] = _tup(cfg['hooks'])
-        b = build(cfg)
+        try:
+            b = build(cfg)
+        except Exception as e:  # noqa
+            return {'violation': True, 'details': ['building the app raised %s: %s' % (type(e).__name__, e)]}
         try:
             tr, res = drive(b, ch)
             compare(cfg, b, ch.choices, tr, res, rep)
